@@ -62,6 +62,16 @@ CHECKS["C01"] = ("proof",
     "Trusted: sha384 as a function of the fed bytes (incremental == one-shot), BytesIO, the asyncio model in pyvc/pymodels.py (FIFO ready "
     "queue). Not decided: more than 3 writers x 2 chunks at blob level, disk persistence beyond the stand-in, loop shutdown/GC.",
     "symbolic execution of the real AST with state injection (writer invariant) and an asyncio scheduler model, VCs by z3/cvc5", "3 C01")
+CHECKS["C11"] = ("proof",
+    "Class invariant WF (exact cover of [0,2**384), contacts in their covering bucket, capacity, unique ids and addresses) proved for "
+    "__init__, _kbucket_index, KBucket.add_peer, _split_bucket, _join_buckets, remove_peer and add_peer (room / same-address eviction "
+    "with index shift / full bucket with every probe outcome and liveness report / closer contact admitted by split / table changed "
+    "by another task during the probe) from ARBITRARY well-formed states of bounded shape with symbolic boundaries and distances; "
+    "find_close_peers returns exactly the nearest min(count,K) eligible contacts ascending (XOR uninterpreted). Bounded: 60 seeded "
+    "histories x 120 operations with K = 8 and random own ids.",
+    "Assumes w.l.o.g. own id = 0 (ids enter only via own XOR id); full-bucket branches on injected capacity 2; shapes up to 4 buckets. "
+    "Trusted: stable sort, dataclass equality, to_bytes/from_bytes inverse, lru_cache transparency.",
+    "symbolic execution of the real AST from injected invariant states, VCs by z3/cvc5", "3 C11")
 NOT_YET = {}
 
 def main():
